@@ -481,7 +481,9 @@ def check_wls_case(ctx, c, opts, known_weights=None, compare_full=True):
     if isinstance(out, tuple):
         # a valid input must calibrate; the only accepted refusal is an unidentifiable configuration
         R = solve_spec(S_own)
-        if R["rank"] < R["ncol"]:
+        if len(S_own["y"]) <= R["ncol"]:
+            ctx.skip("code refused a configuration without residual degrees of freedom")
+        elif R["rank"] < R["ncol"]:
             ctx.skip("code refused a rank-deficient configuration")
         else:
             ctx.fail(f"calibration raised {out[1]}: {out[2]}", desc)
